@@ -11,7 +11,7 @@ Import ListNotations.
 From Flocq Require Import Core.Core IEEE754.BinarySingleNaN IEEE754.Binary IEEE754.Bits.
 Require Import Selen.Model.Prelude Selen.Model.Dom.
 Require Import Selen.Model.B64 Selen.Model.FloatInterval Selen.Model.CtxFloat Selen.Model.FloatStore Selen.Model.FloatProps Selen.Model.FloatSearch.
-Require Import Selen.Proofs.B64Facts Selen.Proofs.FloatIntervalProofs Selen.Proofs.FloatPropsProofs.
+Require Import Selen.Proofs.B64Facts Selen.Proofs.FloatIntervalProofs Selen.Proofs.FloatPropsProofs Selen.Proofs.FloatSearchProofs.
 Open Scope R_scope.
 
 Theorem robust_witness_survives_partial : forall i v i' ev w, magn_b i v = true ->
@@ -79,6 +79,70 @@ Theorem intlin_on_float_var_refuted :
   wf_b w_gt_iv = true /\ prune_ilin_le_mixed [-1]%Z [0%nat] (-3)%Z ([VF w_gt_iv], []) = None.
 Proof. exact strict_int_literal_refuted_ok. Qed.
 Print Assumptions intlin_on_float_var_refuted.
+
+(* ================================================================ STAGE 1: a robust witness is never lost by the search *)
+(* Vocabulary (Proofs/FloatSearchProofs.v), for a witness point w : nat -> R and a tolerance T >= 2.01 (in steps):
+     near T w s         every int variable's (well-formed) domain contains w_v exactly; every float variable's (well-formed)
+                        interval contains w_v up to T steps.  The slack is needed because the two children of a bisection
+                        quantise the split point to floor(mid/step)*step and ceil(mid/step)*step: a witness strictly between the
+                        two is in neither child exactly.
+     sle s' s           s' is not wider than s (same kinds, int domains included, float bounds inwards, step kept)
+     wsafe_below T w b p   THE PER-PROPAGATOR CONTRACT: on every store below b that is near w, p succeeds (never None),
+                        the result is still near w and not wider
+     split_hyp i m      what is needed of a split point on a float pivot, all decidable in f64: inside Magn, passes the code's
+                        own test fi_split_ok (bisect_progress), and floor(m/step)*step <= m <= ceil(m/step)*step as COMPUTED
+     split_ok_hyp T w s0   split_hyp holds for the mid of every non-fixed float interval of every store below s0 near w
+     nosol r            the search ended normally (not on fuel / budget) without a solution: what Model::solve reports as NoSolution
+   What is proved: (a) the propagation loop, from any agenda of valid PropIds in any order and with any fuel, never fails and
+   keeps w; (b) on a store near w that is not assigned the pivot and its mid exist and at least one child (x <= mid if
+   w_x <= mid, else x >= mid) succeeds on its first run, is still near w, and its branch propagator satisfies the contract
+   from then on (it is the identity on every later store); (c) robust_never_nosolution.
+   Hypotheses that remain: the contract for the model's own propagators (stage 2 / 3: proved below for integer comparisons
+   with constants; for float rows it is the numeric part), and split_ok_hyp (Magn is preserved below a store inside Magn, but
+   that the fall-back mid passes fi_split_ok and that the quantisation does not overshoot the mid by rounding are not proved;
+   they are decidable per split and checked by the differential).  Termination (a solution IS returned for enough fuel) is
+   not proved: every split strictly shrinks the pivot (bisect_progress), but propagation itself can creep for as long as the
+   work budget lasts, and the result type does not distinguish depth fuel from work budget. *)
+Theorem propagation_keeps_witness : forall T w s0 ps pf q, near T w s0 -> Forall (wsafe_below T w s0) ps ->
+  qvalid (length ps) q ->
+  match fpropagate pf ps s0 q with
+  | (FPFail, _) => False
+  | (FPFuel, _) => True
+  | (FPDone s', _) => near T w s' /\ sle s' s0
+  end.
+Proof. exact propagation_keeps_witness_main. Qed.
+Print Assumptions propagation_keeps_witness.
+
+Theorem split_keeps_witness : forall T, 201/100 <= T -> forall w s0, split_ok_hyp T w s0 ->
+  forall s ps, Good T w s0 s ps -> fall_assigned s = false ->
+  exists pivot mid, ffirst_unassigned s 0 = Some pivot /\ var_mid (fget s pivot) = Some mid /\
+    (child_ok (Good T w s0) s ps (mk_fleq (FVar pivot) (FConst mid)) \/
+     child_ok (Good T w s0) s ps (mk_fgt (FVar pivot) (FConst mid))).
+Proof. intros T HT w s0 Hs. exact (Good_HS T HT w s0 Hs). Qed.
+Print Assumptions split_keeps_witness.
+
+Theorem robust_never_nosolution : forall T, 201/100 <= T -> forall w s0 ps,
+  near T w s0 -> Forall (wsafe_below T w s0) ps -> split_ok_hyp T w s0 ->
+  forall maxsols fuel budget, ~ nosol (fsearch None maxsols fuel budget ps s0).
+Proof. intros T HT w s0 ps. exact (robust_never_nosolution_main T HT w s0 ps). Qed.
+Print Assumptions robust_never_nosolution.
+
+(* STAGE 2, integer part: an integer variable against an integer constant satisfies the contract whenever the witness does *)
+Theorem wsafe_int_comparisons : forall T w base v c,
+  (forall s, sle s base -> (v < length s)%nat /\ exists d, fget s v = VI d) ->
+  ((exists z, w v = IZR z /\ (z <= c)%Z) -> wsafe_below T w base (mk_fleq (FVar v) (FConst (VlI c)))) /\
+  ((exists z, w v = IZR z /\ (c <= z)%Z) -> wsafe_below T w base (mk_fleq (FConst (VlI c)) (FVar v))).
+Proof. intros T w base v c Hint. split; intro H.
+  - apply wsafe_int_le_const; auto. - apply wsafe_int_ge_const; auto. Qed.
+Print Assumptions wsafe_int_comparisons.
+
+(* the hypotheses of robust_never_nosolution are satisfiable: x0 float declared [0.5, 0.5] (step 0.25), x1 int in {0,1,2,3},
+   constraint 1 <= x1, witness (0.5, 2), T = 3; and the model of solve() does return a solution, (0.5, 1) *)
+Example c07_search_hypotheses_inhabited :
+  near 3 ex7_w ex7_store /\ Forall (wsafe_below 3 ex7_w ex7_store) ex7_props /\ split_ok_hyp 3 ex7_w ex7_store /\
+  map (map (fun b => match b with VlF x => to_bits x | VlI z => z end)) (fs_sols (fsolve_first 20 1000 ex7_props ex7_store))
+    = [[0x3fe0000000000000; 1]%Z].
+Proof. destruct ex7_hypotheses as (A & B & C). split; [exact A|split; [exact B|split; [exact C|exact ex7_search]]]. Qed.
 
 (* non-vacuity: [-2.5, 10.5] step 1e-6, v = pi lies inside Magn and both tightenings succeed and really move the bound
    (to 3.141593 / 3.141592), so e.g. w = 0 survives try_set_max(pi) and w = 5 survives try_set_min(pi) by the theorem above *)
